@@ -687,6 +687,10 @@ def impl_builtin(case):
                     if isinstance(r, BaseException):
                         raise r
                     return r
+            if case['which'] == 'persistentw':      # the same with a write_p (loadParameters writes to the hardware)
+                class PM(PM):
+                    def write_p(self, value):
+                        return value
             node = Node({'m': {'cls': PM, 'description': 'x'}}, omit_unchanged_within=case['gw'],
                         general={'logdir': pathlib.Path(tmp)})
         m = node.modules['m']
@@ -827,7 +831,7 @@ def run(ctx):
     # ---------------- framework drivers that store into the cache themselves ----------------
     bcases = list(builtin_corpus)
     for _ in range(ctx.budget(60, 300)):
-        bcases.append(gen_builtin(rng, rng.choice(['sim', 'persistent'])))
+        bcases.append(gen_builtin(rng, rng.choice(['sim', 'persistent', 'persistentw'])))
     bruns = [impl_builtin(c) for c in bcases]
     answers = ctx.driver.batch([{'p': 'C05', 'k': 'judge_seq', 'init': r['init_x'],
                                  'trace': [{'msgs': [ve for ve, _ in o['msgs']], 'cache': o['cache_x']} for o in r['outs']]}
